@@ -132,3 +132,33 @@ Proof.
   destruct H1 as [T1 X1], H2 as [T2 X2]. specialize (X1 [] []). specialize (X2 [] []). rewrite X1 in X2.
   inversion X2; subst. auto.
 Qed.
+
+(* execution <=> relation for K and W fragments *)
+Theorem denot_exact_K (e : env) (ke : keyenv) (m : ms) (t : ty) :
+  type_of m = ROk t -> wf e ke m -> c_base (t_corr t) = BK ->
+  forall s w v, R e ke m s w v <->
+    exists c sg, w = c ++ [sg] /\ ksig e s v sg /\
+      forall rest al, exec e (enc ke m) (mkSt (c ++ rest) al) = Ok (mkSt (v :: rest) al).
+Proof.
+  intros Ht Hwf Hb s w v. split.
+  - intros HR. pose proof (theoremA' e ke m t Ht Hwf s w v HR) as H. rewrite Hb in H. exact H.
+  - intros [c [sg [-> [Hk Hx]]]]. pose proof (theoremB e ke m t Ht Hwf _ _ _ (Hx [] [])) as H. rewrite Hb in H.
+    destruct H as [c' [rest [key [H1 [H2 H3]]]]]. inversion H2; subst key rest. rewrite !app_nil_r in H1. subst c'.
+    apply H3, Hk.
+Qed.
+
+Theorem denot_exact_W (e : env) (ke : keyenv) (m : ms) (t : ty) :
+  type_of m = ROk t -> wf e ke m -> c_base (t_corr t) = BW ->
+  forall s w v, R e ke m s w v <->
+    (truthy v = s /\ exists above : bool,
+       forall c0 rest al, exec e (enc ke m) (mkSt (c0 :: w ++ rest) al)
+                          = Ok (mkSt ((if above then [v; c0] else [c0; v]) ++ rest) al)).
+Proof.
+  intros Ht Hwf Hb s w v. split.
+  - intros HR. pose proof (theoremA' e ke m t Ht Hwf s w v HR) as H. rewrite Hb in H. exact H.
+  - intros [Hs [above Hx]]. pose proof (theoremB e ke m t Ht Hwf _ _ _ (Hx [] [] [])) as H. rewrite Hb in H.
+    destruct H as [c0 [w' [rest [v' [above' [H1 [H2 H3]]]]]]]. inversion H1 as [[Hc Hw]]. subst c0.
+    assert (E : rest = [] /\ v' = v).
+    { destruct above, above'; cbn [app] in H2; inversion H2; subst; auto. }
+    destruct E as [-> ->]. rewrite !app_nil_r in Hw. subst w'. rewrite Hs in H3. exact H3.
+Qed.
